@@ -132,6 +132,55 @@ class Ctx:
                 self.trusted.append(n)
 
 
+class _Borrow:
+    """A view of a Ctx under which another property's rule module runs with only selected obligations kept (renamed); everything else
+    it establishes is discarded.  Used where a clause of one property is, literally, an obligation of another."""
+
+    def __init__(self, ctx: "Ctx", mapping: dict[str, str]) -> None:
+        self._ctx = ctx
+        self._map = mapping
+        self.repo, self.prop, self.tier, self.seed = ctx.repo, ctx.prop, ctx.tier, ctx.seed
+        self.obligations: list[Obligation] = []
+        self.assumptions: list[str] = []
+        self.trusted: list[str] = []
+        self.decides = self.not_decided = ""
+        self.extra: dict[str, Any] = {}
+
+    def obligation(self, oid: str, title: str, nontrivial: bool = True) -> Obligation:
+        if oid in self._map:
+            return self._ctx.obligation(self._map[oid], title, nontrivial)
+        ob = Obligation(self, oid, title, nontrivial)   # type: ignore[arg-type]
+        self.obligations.append(ob)
+        return ob
+
+    def assume(self, *names: str) -> None:
+        pass
+
+    def trust(self, *names: str) -> None:
+        pass
+
+
+_BORROWING: list[str] = []
+
+
+def borrow(ctx: "Ctx", modname: str, mapping: dict[str, str]) -> None:
+    """run sa.rules.<modname>.check and keep the obligations named in `mapping` under their new ids"""
+    import importlib
+    if modname in _BORROWING:
+        return
+    _BORROWING.append(modname)
+    try:
+        mod = importlib.import_module(f"sa.rules.{modname}")
+        before = {o.id for o in ctx.obligations}
+        mod.check(_Borrow(ctx, mapping))
+        got = {o.id for o in ctx.obligations} - before
+        missing = set(mapping.values()) - got
+        if missing:
+            raise AnalysisError(f"shared obligation(s) {sorted(missing)} not produced by {modname}")
+    finally:
+        _BORROWING.pop()
+
+
 ASSUMPTIONS = {
     "A1": "A1: fewer than 2**30 channels are allocated per gateway (counter-derived ids fit '!i')",
     "A2": "A2: one frame's payload is below 2**31 bytes",
